@@ -44,6 +44,27 @@ def machine_cpus(m):
 
 # ----------------------------------------------------------------------------------------- topology-aware worlds
 
+def with_isolated(m, rnd):
+    """A variant of machine m with 2-4 more kernel-isolated CPUs (whole cores where possible)."""
+    m = copy.deepcopy(m)
+    cores = []
+    for p in m["packages"]:
+        for d in p["dies"]:
+            for n in d["nodes"]:
+                for c in n.get("cores") or []:
+                    cores.append(list(c["cpus"]))
+    off = set(m.get("offline") or [])
+    cores = [[c for c in k if c not in off] for k in cores[1:]]        # keep the first core for the reserved CPU
+    cores = [k for k in cores if k]
+    rnd.shuffle(cores)
+    iso = set(m.get("isolated") or [])
+    for k in cores[:rnd.randint(1, 2)]:
+        iso |= set(k)
+    m["isolated"] = sorted(iso)
+    m["name"] = m["name"] + "-iso"
+    return m
+
+
 def ta_worlds(ms, rnd, n):
     """n worlds: machine x configuration variants the policy accepts."""
     out = []
@@ -51,6 +72,8 @@ def ta_worlds(ms, rnd, n):
     for i in range(n):
         name = names[i % len(names)] if i < 2 * len(names) else rnd.choice(names)
         m = ms[name]
+        if i % 4 == 3:
+            m = with_isolated(m, rnd)
         cpus = machine_cpus(m)
         iso = set(m.get("isolated") or [])
         cand = [c for c in cpus if c not in iso]
@@ -97,11 +120,23 @@ def balloon_types(rnd, ncpu):
         {"name": "spread", "preferSpreadingPods": True, "minCPUs": 1, "maxBalloons": 2, "namespaces": ["rsv-*"]},
         {"name": "nomem", "pinMemory": False, "minCPUs": 1, "maxCPUs": 2},
     ]
-    k = rnd.randint(1, 4)
+    menu += [
+        # maxCPUs beyond what can ever be free: inflating an existing balloon can fail half-way
+        {"name": "big", "minCPUs": 1, "maxCPUs": ncpu + 2, "shareIdleCPUsInSame": rnd.choice(["", "package", "system"])},
+        {"name": "wide", "minCPUs": 0, "maxCPUs": ncpu, "minBalloons": rnd.choice([0, 1]), "preferNewBalloons": rnd.random() < 0.5,
+         "shareIdleCPUsInSame": "numa"},
+    ]
+    k = rnd.randint(1, 5)
     out = [copy.deepcopy(t) for t in rnd.sample(menu, k)]
+    ht_world = rnd.random() < 0.25      # every type hides hyperthreads and shares idle CPUs
     for t in out:
-        if rnd.random() < 0.5:
+        if rnd.random() < 0.6:
             t["cpuClass"] = "cls-" + t["name"]
+        if ht_world:
+            t["hideHyperthreads"] = True
+            t.setdefault("shareIdleCPUsInSame", "system")
+            if not t["shareIdleCPUsInSame"]:
+                t["shareIdleCPUsInSame"] = rnd.choice(["system", "package", "numa"])
     return out
 
 
@@ -116,7 +151,7 @@ def balloons_worlds(ms, rnd, n):
         cand = [c for c in cpus if c not in iso]
         cfg = {"reservedResources": {"cpu": "cpuset:%d" % cand[0]} if rnd.random() < 0.7 else {"cpu": "1"},
                "balloonTypes": balloon_types(rnd, len(cpus)), "showContainersInNrt": True}
-        if rnd.random() < 0.5:
+        if rnd.random() < 0.7:
             cfg["idleCPUClass"] = "idle"
         if rnd.random() < 0.2 and len(cpus) > 4:
             keep = sorted(set(rnd.sample(cpus, len(cpus) - rnd.randint(1, 2))) | {cand[0]})
@@ -138,8 +173,8 @@ def pod_class(rnd, policy="ta"):
     r = rnd.random
     if r() < 0.15:
         ann[ANN["shared"]] = rnd.choice(["true", "false"])
-    if r() < 0.12:
-        ann[ANN["isol"]] = rnd.choice(["true", "false"])
+    if r() < 0.2:
+        ann[ANN["isol"]] = rnd.choice(["true", "true", "false"])
     if r() < 0.06:
         ann[ANN["rsv"]] = rnd.choice(["true", "false"])
     if r() < 0.08:
@@ -158,7 +193,7 @@ def pod_class(rnd, policy="ta"):
     return {"ns": ns, "qos": qos, "ann": ann}
 
 
-CPU_MENU = [0, 100, 250, 500, 999, 1000, 1000, 1500, 2000, 2000, 2500, 3000, 4000]
+CPU_MENU = [0, 100, 250, 500, 999, 1000, 1000, 1000, 1200, 1500, 1500, 1800, 2000, 2000, 2500, 3000, 4000]
 
 
 def ctr_class(rnd, qos, big_mem=False):
@@ -303,6 +338,39 @@ def lifecycle_history(world, rnd, nops, disorder=0.0, reconf_cfgs=None, sync=Tru
     ops.append({"op": "RemovePod", "pod": "probe", "tag": "drain"})
     return {"world": world, "ops": ops, "consistent": disorder == 0.0}
 
+
+
+def fill_history(world, rnd, nops):
+    """Fill the machine to capacity and keep it there: many fractional and mixed (exclusive + fraction) requests,
+    occasional departures, so that admission decisions are made at nearly full pools."""
+    ops, ctrs, pod_of = [], {}, {}
+    menu = [300, 500, 700, 800, 1000, 1200, 1300, 1500, 1700, 1800, 2000, 2500]
+    n = 0
+    while len(ops) < nops:
+        live = [c for c, s in ctrs.items() if s != "stopped"]
+        if live and rnd.random() < 0.22:
+            c = rnd.choice(live)
+            ops.append({"op": "Stop", "pod": pod_of[c], "c": c})
+            ops.append({"op": "Remove", "pod": pod_of[c], "c": c})
+            del ctrs[c]
+            continue
+        n += 1
+        p, c = "p%d" % n, "c%d" % n
+        qos = rnd.choice(["Guaranteed", "Guaranteed", "Burstable"])
+        ann = {}
+        if rnd.random() < 0.25:
+            ann[ANN["shared"]] = "false"
+        if rnd.random() < 0.15:
+            ann[ANN["isol"]] = rnd.choice(["true", "false"])
+        cpu = rnd.choice(menu)
+        ops.append({"op": "RunPod", "pod": p, "pods": {"ns": "default", "qos": qos, "ann": ann}})
+        ops.append({"op": "Create", "pod": p, "c": c,
+                    "ctr": {"cpureq": cpu, "cpulim": cpu if qos == "Guaranteed" else 0, "memlim": 64, "memreq": 64}})
+        ctrs[c], pod_of[c] = "created", p
+    for c in list(ctrs):
+        ops.append({"op": "Stop", "pod": pod_of[c], "c": c, "tag": "drain"})
+        ops.append({"op": "Remove", "pod": pod_of[c], "c": c, "tag": "drain"})
+    return {"world": world, "ops": ops, "consistent": True}
 
 
 # ----------------------------------------------------------------------------------------- C14: malformed annotation values
@@ -470,6 +538,10 @@ def valid_configs(world, rnd):
     cand = [c for c in cpus if c not in iso]
     out = [dict(cfg, pinMemory=not cfg.get("pinMemory", True)), dict(cfg, pinCPU=not cfg.get("pinCPU", True)),
            dict(cfg, reservedResources={"cpu": "cpuset:%d" % rnd.choice(cand)})]
+    if len(cand) > 4:        # shrink the available set (keeping a reserved CPU inside it)
+        keep = sorted(rnd.sample(cand, len(cand) - rnd.randint(1, 2)))
+        out.append(dict(cfg, availableResources={"cpu": "cpuset:" + ",".join(map(str, keep))},
+                        reservedResources={"cpu": "cpuset:%d" % keep[0]}))
     if world["policy"] == "ta":
         out += [dict(cfg, preferSharedCPUs=not cfg.get("preferSharedCPUs", False)), dict(cfg, reservedPoolNamespaces=["rsv-*", "other"])]
     else:
